@@ -28,6 +28,7 @@ import TracingModel.Core.RollingDriver
 import TracingModel.Core.MacrosDriver
 import TracingModel.Core.InstrumentDriver
 import TracingModel.Core.LogBridgeDriver
+import TracingModel.Core.CloseGuardDriver
 
 open TM TM.Wire
 
@@ -69,6 +70,8 @@ def dispatch (prop mode : String) : Option (List String → String) :=
   | "C05", "model" => some RegistryDriver.model
   | "C05", "spec" => some RegistryDriver.spec
   | "C05", "modelhandle" => some HandleRaceDriver.model
+  | "C05", "modelnested" => some CloseGuardDriver.model
+  | "C05", "specnested" => some CloseGuardDriver.spec
   | "C06", "model" => some RegistryDriver.model
   | "C06", "spec" => some RegistryDriver.spec
   | "C07", "model" => some FilteringDriver.model
